@@ -147,6 +147,14 @@ def check_permutation(case):
     facts = dict(label_kind=case["label_kind"], n_classes=len(set(i for i in case["z"] if i is not None)))
     t = _fct.PermutationReciprocalTransformer(random_state=case["random_state"])
     np.random.seed(case["seed"])
+    if case.get("first") is not None:
+        # the same instance was fitted on other labels before and its reciprocal was already requested:
+        # "every fitted permutation" includes the one of a refit
+        y_first = _label_array(dict(case, z=case["first"]["z"], pool=case["first"]["pool"]))
+        t.fit(None, y_first)
+        inv_first = t.get_fct_inv()
+        inv_first.transform(None, t.transform(None, y_first)[1])
+        facts["refit"] = True
     y0 = y.copy()
     r = t.fit(None, y)
     require(r is t or r is None, "fit:return", "%r" % type(r), facts)     # 'fit returns self' belongs to C02
@@ -169,7 +177,7 @@ def check_permutation(case):
     first_seen = {u: i for i, u in enumerate(distinct)}
     identity = all(int(perm[u]) == first_seen[u] for u in distinct)
     return Outcome([case["label_kind"], "identity" if identity else "non-identity", "classes=%d" % len(distinct),
-                    "has-nan" if any(i is None for i in case["z"]) else "no-nan"], not identity)
+                    "has-nan" if any(i is None for i in case["z"]) else "no-nan", "refit" if case.get("first") else "first-fit"], not identity)
 
 
 @st.composite
@@ -186,7 +194,15 @@ def _perm_cases(draw, tier="quick", kinds=("int", "int32", "float", "str-object"
         z[draw(st.integers(0, n - 1))] = None
         if all(v is None for v in z):
             z[0] = 0
-    return dict(label_kind=kind, pool=pool, z=z, random_state=draw(st.one_of(st.none(), st.integers(0, 200))), seed=draw(st.integers(0, 2**31 - 2)))
+    first = None
+    if draw(st.integers(0, 2)) == 0:
+        k1 = draw(st.integers(2, 6))
+        pool1 = draw(st.lists(st.integers(-9, 30), min_size=k1, max_size=k1, unique=True))
+        z1 = [draw(st.integers(0, k1 - 1)) for _ in range(draw(st.integers(k1, 12)))]
+        for i in range(k1):
+            z1[i] = i
+        first = dict(pool=pool1, z=list(draw(st.permutations(z1))))
+    return dict(label_kind=kind, pool=pool, z=z, random_state=draw(st.one_of(st.none(), st.integers(0, 200))), seed=draw(st.integers(0, 2**31 - 2)), first=first)
 
 
 # ------------------------------------------------------------------------- regressor
